@@ -7,6 +7,12 @@
 (* recorded from real multi-threaded runs of malt (vf/c10_probe.py).  An   *)
 (* event is [th, ev, key, sub, env, fac, res]: integers, but ev (a string) *)
 (* and fac (a factory name <<code, opts, n>>, <<0, 0, 0>> = none/unknown).  *)
+(* Heap events (thread 0): "def" (a function object [key, env] is seen for *)
+(* the first time; fac = <<address of its code object, contents of its     *)
+(* cells, 0>>), "collect", "rebind" (the captured variables of env now     *)
+(* hold res), "look" (a result handed out for a request of [key, env] was  *)
+(* called: the captured value it read is res - it has to be what the       *)
+(* cells of the requesting function hold, cellval[env]).                   *)
 (* Each trace is checked in two modes (variable `mode`):                   *)
 (*                                                                         *)
 (* "strict": every event must be an action of ConvCache taken by that      *)
@@ -72,8 +78,10 @@ Visible(e, t) ==
   \/ e.ev = "err" /\ Raise(t)
   \/ e.ev = "inst" /\ At(t, "inst") /\ Top(t).fac = e.fac /\ Top(t).env = e.env /\ Instantiate(t)
   \/ e.ev = "ret" /\ Return(t)
-  \/ e.ev = "def" /\ DefineFn(f) /\ UNCHANGED cnt
+  \/ e.ev = "def" /\ DefineFn(f, e.fac[1], e.fac[2]) /\ UNCHANGED cnt
   \/ e.ev = "collect" /\ Collect(e.key)
+  \/ e.ev = "rebind" /\ Rebind(e.env, e.res)
+  \/ e.ev = "look" /\ e.env \in Envs /\ cellval[e.env] = e.res /\ UNCHANGED vars
 
 Strict ==
   \/ l <= Len(Ev) /\ Adv /\ Visible(Ev[l], Ev[l].th)
@@ -82,7 +90,7 @@ Strict ==
   \/ l > 1 /\ l <= Len(Ev) + 1 /\ Ev[l - 1].ev = "has_start" /\ FastRead(Ev[l - 1].th) /\ Stay
 
 (* ---- obs: only the history --------------------------------------------------- *)
-ObsEvents == {"req", "transform_ok", "store", "inst", "ret", "err", "collect"}
+ObsEvents == {"req", "transform_ok", "store", "inst", "ret", "err", "collect", "def", "rebind"}
 Obs ==
   /\ l <= Len(Ev) /\ Adv
   /\ LET e == Ev[l]
@@ -90,27 +98,34 @@ Obs ==
      IN
      \/ /\ e.ev = "req"
         /\ stack' = Push(t, NewFrame(F(e.key, e.env), e.sub))
-        /\ UNCHANGED <<fns, used, cache, owner, depth, ntr, facEnv, returned, cnt>>
+        /\ UNCHANGED <<fns, used, cache, owner, depth, ntr, facEnv, heap, memo, returned, cnt>>
      \/ /\ e.ev = "transform_ok" /\ Busy(t)
         /\ ntr' = [ntr EXCEPT ![RealKey(Top(t))] = @ + 1]
-        /\ UNCHANGED <<fns, used, cache, owner, depth, stack, facEnv, returned, cnt>>
+        /\ UNCHANGED <<fns, used, cache, owner, depth, stack, facEnv, heap, memo, returned, cnt>>
      \/ /\ e.ev = "store" /\ <<e.key, e.sub>> \in Keys
         /\ cache' = [cache EXCEPT ![<<e.key, e.sub>>] = e.fac]
-        /\ UNCHANGED <<fns, used, owner, depth, stack, ntr, facEnv, returned, cnt>>
+        /\ UNCHANGED <<fns, used, owner, depth, stack, ntr, facEnv, heap, memo, returned, cnt>>
      \/ /\ e.ev = "store" /\ <<e.key, e.sub>> \notin Keys /\ UNCHANGED vars
      \/ /\ e.ev = "inst" /\ Busy(t)
         /\ stack' = SetTop(t, [Top(t) EXCEPT !.fac = e.fac, !.renv = e.env, !.pc = "obs"])
-        /\ UNCHANGED <<fns, used, cache, owner, depth, ntr, facEnv, returned, cnt>>
+        /\ UNCHANGED <<fns, used, cache, owner, depth, ntr, facEnv, heap, memo, returned, cnt>>
      \/ /\ e.ev = "ret" /\ Busy(t)
         /\ LET fr == Top(t) IN
              returned' = returned \cup {[code |-> fr.code, env |-> fr.env, o |-> fr.o, fac |-> fr.fac, renv |-> fr.renv]}
         /\ stack' = Pop(t)
-        /\ UNCHANGED <<fns, used, cache, owner, depth, ntr, facEnv, cnt>>
+        /\ UNCHANGED <<fns, used, cache, owner, depth, ntr, facEnv, heap, memo, cnt>>
      \/ /\ e.ev = "err" /\ Busy(t) /\ stack' = Pop(t)
-        /\ UNCHANGED <<fns, used, cache, owner, depth, ntr, facEnv, returned, cnt>>
+        /\ UNCHANGED <<fns, used, cache, owner, depth, ntr, facEnv, heap, memo, returned, cnt>>
      \/ /\ e.ev = "collect"
         /\ cache' = [k \in Keys |-> IF k[1] = e.key THEN NoFac ELSE cache[k]]
-        /\ UNCHANGED <<fns, used, owner, depth, stack, ntr, facEnv, returned, cnt>>
+        /\ UNCHANGED <<fns, used, owner, depth, stack, ntr, facEnv, heap, memo, returned, cnt>>
+     \* the heap as logged: contents of the cells (no protocol: whatever the log says)
+     \/ /\ e.ev = "def"
+        /\ cellval' = IF e.env \in Envs /\ e.fac[2] \in Vals THEN [cellval EXCEPT ![e.env] = e.fac[2]] ELSE cellval
+        /\ UNCHANGED <<fns, used, cache, owner, depth, stack, ntr, facEnv, addr, memo, returned, cnt>>
+     \/ /\ e.ev = "rebind"
+        /\ cellval' = IF e.env \in Envs /\ e.res \in Vals THEN [cellval EXCEPT ![e.env] = e.res] ELSE cellval
+        /\ UNCHANGED <<fns, used, cache, owner, depth, stack, ntr, facEnv, addr, memo, returned, cnt>>
      \/ e.ev \notin ObsEvents /\ UNCHANGED vars
 
 TNext == \/ mode = "strict" /\ Strict
@@ -123,12 +138,14 @@ BadCoh   == {r \in returned : ~CoherentRec(r)}
 BadAlias == {<<r1, r2>> \in returned \X returned :
                (r1.o # r2.o \/ r1.env # r2.env) /\ <<r1.fac, r1.renv>> = <<r2.fac, r2.renv>>}
 BadStale == {r \in returned : r.fac[1] # r.code}
+BadFollow == {r \in returned : ~FollowsRec(r)}      \* evaluated on the cells as they are at the end of the trace
 PcOf(t) == IF t \in Threads THEN (IF Busy(t) THEN Top(t).pc ELSE "idle") ELSE "env"
 
 Report ==
   /\ l > Len(Ev) =>
        PrintT(ToJson([k |-> "end", id |-> Traces[tr].id, mode |-> mode,
                       amo |-> BadAmo, coh |-> BadCoh, alias |-> BadAlias, stale |-> BadStale,
+                      follow |-> BadFollow,
                       lockok |-> (mode = "obs" \/ LockDiscipline),
                       nret |-> Cardinality(returned)]))
   /\ (Diag /\ l <= Len(Ev)) =>
